@@ -1,7 +1,7 @@
 """C20 — the instruction trace shows the fetched bytes and their Y86-64 disassembly."""
 
-THEOREM_MODULES = ["Hcl.Theorems.C20"]
-THEOREMS = {"Hcl.Theorems.C20": ["C20_disasm", "C20_invalid", "C20_line", "rdLE_byte", "disassemble_len_le", "traceLine_bytes"]}
+THEOREM_MODULES = ["Hcl.Theorems.C20", "Hcl.Tie.Disasm"]
+THEOREMS = {"Hcl.Tie.Disasm": ["Tie.Disasm.disasmRegisters", "Tie.Disasm.disasmIfuns", "Tie.Disasm.disasmText"], "Hcl.Theorems.C20": ["C20_disasm", "C20_invalid", "C20_line", "rdLE_byte", "disassemble_len_le", "traceLine_bytes"]}
 
 RULE = ("S-DISASM: all 65,536 combinations of the first two instruction bytes x immediates {0, 1, 2^63, 2^64-1, random..} "
         "through the real disassembler (verif-hooks re-export), compared with the Lean model (correspondence) and, where the "
